@@ -715,6 +715,12 @@ func c18Compare(ex *c18Exchange, disableCompression bool, so *c18ServerObs, co *
 		if co.ContentLength != declared {
 			v("response|content-length", "client saw ContentLength %d, handler declared %d", co.ContentLength, declared)
 		}
+	case ex.Method == "HEAD" && !ex.noBodyStatus() && co.ReadErr == "":
+		// an automatic Content-Length on a HEAD response announces what the same handler output would be
+		// for GET (RFC 9110 9.3.2): the bytes the handler wrote, or nothing at all
+		if co.ContentLength != -1 && co.ContentLength != int64(len(so.Written)) {
+			v("response|content-length|head", "HEAD: client saw an automatic ContentLength %d, the handler wrote %d bytes", co.ContentLength, len(so.Written))
+		}
 	case !bodyless && co.ReadErr == "":
 		if co.ContentLength != -1 && co.ContentLength != int64(len(co.Body)) {
 			v("response|content-length", "client saw an automatic ContentLength %d but a body of %d bytes", co.ContentLength, len(co.Body))
